@@ -60,7 +60,14 @@ Expected(row) ==
 \* the UTF-8 encoder is judged through the decoder: the bytes must decode to the same code points
 Utf8EncOk(row) == row.st = "ok" /\ Utf8Valid(row.out) /\ Utf8Points(row.out) = row.in
 
-RowVerdict(i) ==
+\* outside the domain the property speaks about: BCD input with nibbles A-E (or F in the high position), tag numbers the
+\* default tag encoding cannot represent - the shipped code reads them leniently; a different reading is model drift
+OutOfDomain(row) == \/ (row.enc = "Bcd" /\ row.op = "dec" /\ ~BcdStrict(row.in))
+                    \/ (row.enc = "TagDef" /\ row.op = "enc" /\ ~TagRepresentable(row.in))
+                    \/ (row.enc = "Receipt" /\ row.op = "dec" /\ Len(row.in) >= 2 /\ ~(row.in[1] = 255 /\ row.in[2] = 255) /\ ~BcdStrict(SubSeq(row.in, 1, 2)))
+Soften(row, v) == IF v = "bad" /\ OutOfDomain(row) /\ row.st # "panic" THEN "kind" ELSE v
+
+RowVerdict0(i) ==
   LET row == Rows[i] IN
   IF row.enc \notin Known THEN "ok"
   ELSE IF row.enc = "Utf8" /\ row.op = "enc" THEN (IF Utf8EncOk(row) THEN "ok" ELSE "bad")
@@ -68,6 +75,8 @@ RowVerdict(i) ==
        IF exp.st # row.st THEN "bad"
        ELSE IF exp.st = "err" THEN (IF exp.kind = row.kind \/ (exp.kind = "Overflow" /\ row.kind = "Incomplete") THEN "ok" ELSE "kind")
        ELSE IF exp.out = row.out /\ exp.rest = row.rest THEN "ok" ELSE "bad"
+
+RowVerdict(i) == Soften(Rows[i], RowVerdict0(i))
 
 Judge == \A i \in (c * Block + 1)..Min((c + 1) * Block, N) :
            LET v == RowVerdict(i) IN
